@@ -220,7 +220,11 @@ def lock_model(ctx):
   setter = ctx.func(LOCK_SETTER)
   rets = [n for n in walk_local(getter.node) if isinstance(n, ast.Return)]
   if len(rets) != 1 or not isinstance(rets[0].value, ast.Name):
-    raise AnalysisError('config_is_locked no longer returns the lock flag directly')
+    what = u(rets[0].value) if rets and rets[0].value is not None else 'nothing'
+    ctx.fail('C12.guarded', 'gin/config.py::config_is_locked',
+             'the lock state is no longer one module-level flag (config_is_locked returns `%s`): state held per object / per thread means a '
+             'configuration finalized by one thread is still modifiable from another' % what, getter.loc(), instance='global-flag')
+    raise AnalysisError('config_is_locked no longer returns a module-level flag')
   flag = rets[0].value.id
   writes = [n for n in walk_local(setter.node) if isinstance(n, ast.Name)
             and n.id == flag and isinstance(n.ctx, ast.Store)]
@@ -600,3 +604,95 @@ def lock_order(ctx, rule):
             'lock-order inversion: %s -- two threads taking the locks in opposite orders deadlock (e.g. a singleton under construction calls a '
             'configurable while another thread clears the configuration)' % (bad[0][0] if bad else ''), bad[0][1].split(' ')[0] if bad else 'gin/config.py',
             sites=len(edges) or 1, instance='lock-order')
+
+
+def bind_always_writes(ctx, rule):
+  """bind_parameter has no normal exit that skips the write of the value."""
+  prog = ctx.prog
+  bp = ctx.func('config.bind_parameter')
+  g, facts = std_facts(prog, bp)
+  vw = []
+  for n in g.live_nodes():
+    a = n.ast
+    if n.kind == 'stmt' and isinstance(a, ast.Assign) and isinstance(a.targets[0], ast.Subscript) and isinstance(a.targets[0].value, ast.Name):
+      d = None
+      for fct in facts[n.id]:
+        if fct[0] == 'def' and fct[1] == a.targets[0].value.id:
+          d = fct[2]
+      if d and '_CONFIG.setdefault(' in d:
+        vw.append(n)
+  w0 = witness(g, g.entry.id, [g.exit.id], avoid=[n.id for n in vw]) if vw else [g.entry.id]
+  ctx.check(bool(vw) and w0 is None, rule, construct(bp), 'every successful bind stores the given value (the most recent binding wins)',
+            'bind_parameter can return without storing the value: a re-binding that compares equal to the old value (1 vs True, two references / macros that '
+            'differ only in scope) is dropped, so the most recently bound value is not the one in effect', bp.loc(), instance='always-writes')
+
+
+def loop_examines_all(ctx, rule, qual, inner_pred, what):
+  """Every pass through the outermost loop of a finalize hook reaches the
+  examining step (no entry is filtered out by a `continue` / condition)."""
+  prog = ctx.prog
+  f = ctx.func(qual)
+  g = prog.cfg(f)
+  loops = [n for n in g.live_nodes() if n.kind == 'for' and not n.loops]
+  targets = [n for n in g.live_nodes() if inner_pred(f, n)]
+  ok = bool(loops) and bool(targets)
+  w = None
+  def skip_path(start, goal, avoid):
+    # a path that does not rely on a nested loop having nothing to iterate
+    prev = {start: None}
+    queue = [start]
+    while queue:
+      x = queue.pop(0)
+      if x == goal:
+        out = []
+        while x is not None:
+          out.append(x)
+          x = prev[x]
+        return out[::-1]
+      for b, k in g.succ[x]:
+        if k == 'exhaust' and x != goal:
+          continue
+        if b not in prev and b not in avoid:
+          prev[b] = x
+          queue.append(b)
+    return None
+  for lp in loops:
+    first = [b for b, k in g.succ[lp.id] if k == 'loop']
+    if first and first[0] not in [t.id for t in targets]:
+      w = w or skip_path(first[0], lp.id, {t.id for t in targets})
+  ctx.check(ok and w is None, rule, construct(f), 'every entry of the configuration is examined (%s)' % what,
+            'some entries are skipped before they are examined (%s): what the hook is meant to reject is accepted for those entries' % what, f.loc(),
+            instance='examines-all', path=describe_path(g, w) if w else None)
+
+
+def rehoming_rules(ctx, rule_order, rule_key):
+  """_find_registered_methods: pop(old) precedes the insertion under the new
+  selector (they can be the same string); overrides are keyed by the class attribute name."""
+  prog = ctx.prog
+  f = ctx.func('config._find_registered_methods')
+  g, facts = std_facts(prog, f)
+  pops = [n for n in g.live_nodes() if any(u(c.func) == '_REGISTRY.pop' for c in calls_of_node(n))]
+  ins = [n for n in g.live_nodes() if n.kind == 'stmt' and isinstance(n.ast, ast.Assign) and isinstance(n.ast.targets[0], ast.Subscript)
+         and u(n.ast.targets[0].value) == '_REGISTRY']
+  ok = bool(pops) and bool(ins)
+  for p_ in pops:
+    for i_ in ins:
+      # within one iteration the insert must come after the pop: the pop is not reachable from the insert without passing the loop head
+      heads = [x.id for x in g.live_nodes() if x.kind == 'for']
+      if witness(g, i_.id, [p_.id], avoid=heads) is not None:
+        ok = False
+  ctx.check(ok, rule_order, construct(f), 'a re-homed method is removed under its old selector before it is inserted under the new one',
+            'the method is inserted under its new selector before the old selector is popped: when both are the same string (class registered twice, or the '
+            'method registered with module equal to the class selector) the entry just inserted is removed and the method vanishes from the selector registry',
+            f.loc(), instance='pop-then-insert')
+  loops = [n for n in walk_local(f.node) if isinstance(n, ast.For) and isinstance(n.iter, ast.Call) and u(n.iter.func) == 'inspect.getmembers']
+  okk = bool(loops)
+  for lp in loops:
+    attr = u(lp.target.elts[0]) if isinstance(lp.target, ast.Tuple) else None
+    for a in walk_local(lp):
+      if isinstance(a, ast.Assign) and isinstance(a.targets[0], ast.Subscript) and u(a.targets[0].value) == 'registered_methods':
+        if u(a.targets[0].slice) != attr:
+          okk = False
+  ctx.check(okk, rule_key, construct(f), 'method overrides are stored under the attribute name the class uses for the method',
+            'a method override is stored under a key other than the class attribute name: a method registered under a different Gin name is not overridden in '
+            'the configurable class, so its bindings are never injected', f.loc(), instance='override-key')
